@@ -120,7 +120,7 @@ func orderProbe() (res string) {
 	}()
 	storer := variable.NewInMemoryStorer()
 	dr, err := ysgo.NewDialogueRunner(storer, "o", strings.NewReader("title: Order\n---\n<<declare $n = 1>>\n<<declare $f = false>>\n"+
-		"A {$n + bump() + $n}\nB {three($n, bump(), $n)}\nC {$f or (raise() and $f)}\nD {$n * 2 - bump() * $n}\n===\n"))
+		"A {$n + bump() + $n}\nB {three($n, bump(), $n)}\nC {$f or (raise() and $f)}\nD {$n * 2 - bump() * $n}\n<<report {$n} {bump()} {$n} done>>\nE {$n}\n===\n"))
 	if err != nil {
 		return "ORDER bad load"
 	}
@@ -143,8 +143,17 @@ func orderProbe() (res string) {
 		v := strings.Join(parts, ",")
 		return &variable.Value{String: &v}, nil
 	})
+	var reported []string
+	dr.AddCommand("report", func(a []*variable.Value) <-chan error {
+		for _, x := range a {
+			reported = append(reported, x.ToString())
+		}
+		ch := make(chan error, 1)
+		ch <- nil
+		return ch
+	})
 	var got []string
-	for i := 0; i < 4; i++ {
+	for i := 0; i < 5; i++ {
 		el, err := dr.Next(0)
 		if err != nil || el == nil || el.Line == nil {
 			return "ORDER bad " + strings.Join(got, "|") + " then no line"
@@ -152,8 +161,12 @@ func orderProbe() (res string) {
 		got = append(got, el.Line.Text)
 	}
 	// A: 1 + 1 + 11; B: 11, 1, 21; C: false or (true and true); D: 21*2 - 1*31
-	if want := "A 13|B 11,1,21|C True|D 11"; strings.Join(got, "|") != want {
+	if want := "A 13|B 11,1,21|C True|D 11|E 41"; strings.Join(got, "|") != want {
 		return "ORDER bad " + strings.Join(got, "|") + " wanted " + want
+	}
+	// the command statement between D and E: each element is the value it had when its turn came, and stays that value
+	if want := "31,1,41,done"; strings.Join(reported, ",") != want {
+		return "ORDER bad command arguments " + strings.Join(reported, ",") + " wanted " + want
 	}
 	return "ORDER ok"
 }
